@@ -12,7 +12,7 @@ func init() {
 	register(&propDef{
 		ID:          "C17",
 		Run:         ruleC17,
-		Explanation: "Decides the acquire/release pairing of the downloaded temp files on every control-flow exit (structural necessary condition of C17): after a successful os.CreateTemp every error return of the per-host download removes that file; every error return of the host loop deletes the files downloaded so far; in the redact command every path from a successful download to the closure's return is covered by a registered defer that deletes the files and every path to os.Exit passes a direct delete call (defers do not run on os.Exit - modelled); the delete helper removes every element and never stops early; no other file-creating call is reachable from the download. NOT decided: signals/SIGKILL, panics inside libraries, OS temp-dir semantics.",
+		Explanation: "Decides the acquire/release pairing of the downloaded temp files on every control-flow exit (structural necessary condition of C17): after a successful os.CreateTemp every error return of the per-host download removes that file; every error return of the host loop deletes the files downloaded so far; in the redact command every path from a successful download to the closure's return is covered by a registered defer that deletes the files and every path to os.Exit passes a direct delete call (defers do not run on os.Exit - modelled); the delete helper removes every element and never stops early; no other file-creating call is reachable from the download. a defer registered before the host loop deletes the files downloaded so far while a panic unwinds through the download function. NOT decided: signals/SIGKILL, panics that do not unwind through the download function or the command closure, OS temp-dir semantics.",
 		RuleText:    "obligations = CreateTemp sites, error returns in the host loop, exits/returns reachable after the download's err==nil edge, the delete loop, file-creating calls reachable from the download; discharged by CFG must-pass-through queries with defer modelling",
 	})
 }
